@@ -1144,18 +1144,18 @@ func runC19Accepted(c *Ctx) {
 		c.Undecided("post-acceptance returns of Offer", "-", "none found (wait_for_result path not recognised)")
 		return
 	}
-	// the wrapper: the counter increment is unreachable on the marker side
+	// the wrapper: the counter increment (in Offer itself or in a helper of the package that Offer calls) is unreachable
+	// on the marker side
 	for _, fn := range p.AllSrcFuncs(pk) {
 		if fn.Parent() != nil || fn.Name() != "Offer" || fn.Signature.Recv() == nil {
 			continue
 		}
-		adds := calls(fn, func(ci ssa.CallInstruction) bool {
-			if !ci.Common().IsInvoke() || ci.Common().Method.Name() != "Add" {
-				return false
-			}
-			_, path := fieldChain(ci.Common().Value)
-			return len(path) > 0 && strings.Contains(strings.ToLower(path[len(path)-1]), "enqueuefailed")
-		})
+		var adds []ssa.CallInstruction
+		addPos := map[ssa.CallInstruction]token.Pos{}
+		for _, site := range effectSitesA9(fn, isEnqueueFailedAddA9, 2) {
+			adds = append(adds, site.At)
+			addPos[site.At] = site.Effect().Pos()
+		}
 		if len(adds) == 0 {
 			continue
 		}
@@ -1193,7 +1193,7 @@ func runC19Accepted(c *Ctx) {
 					}
 				}
 			}
-			c.Check(okGate || len(markers) == 0, "enqueue-failed counter in "+fnName(fn)+" skips post-acceptance errors", p.Pos(add.Pos()), "errors.As(err, &marker) side returns before the counter", "the enqueue-failed counter is incremented for every error of Offer, including the marked post-acceptance ones")
+			c.Check(okGate || len(markers) == 0, "enqueue-failed counter in "+fnName(fn)+" skips post-acceptance errors", p.Pos(addPos[add]), "errors.As(err, &marker) side returns before the counter", "the enqueue-failed counter is incremented for every error of Offer, including the marked post-acceptance ones")
 		}
 	}
 }
